@@ -187,6 +187,32 @@ func HarnessC10Optional() {
 		conds = append(conds, cn)
 	}
 	verif.Assert(tbl.NumRows() == verif.Count(conds...), "C10/optional/left-join-row-count")
+	// the same statement grouped by all its bindings (no aggregate) is the set of
+	// distinct left-join rows: it succeeds - the bindings of the optional clause are
+	// part of the table also when it matched nothing - and has at most as many rows
+	if sh.filter == "" {
+		bs := xbindingsOf(append(append([]xclause{sh.mand}, sh.dead...), sh.opts...))
+		gq := q[:len(q)-1] + "group by"
+		for i, b := range bs {
+			if i > 0 {
+				gq += ","
+			}
+			gq += " ?" + b
+		}
+		gq += " ;"
+		var gt *table.Table
+		var gerr error
+		if noPanic("C10/optional/no-panic", func() { gt, gerr = runBQL(st, gq, 0, 10) }) {
+			if gerr != nil {
+				verif.Observe("query", gq)
+				verif.Observe("error", gerr.Error())
+			}
+			verif.Assert(gerr == nil, "C10/optional/grouped-by-all-bindings-succeeds")
+			if gerr == nil {
+				verif.Assert(gt.NumRows() <= tbl.NumRows() && (gt.NumRows() > 0) == (tbl.NumRows() > 0), "C10/optional/grouped-rows-are-the-distinct-rows")
+			}
+		}
+	}
 	for x := 0; x < tbl.NumRows(); x++ {
 		r, _ := tbl.Row(x)
 		any := false
